@@ -215,7 +215,10 @@ def check_shape_case(case):
     dis = []
     shapes = [svg.Rect(1, 2, 5, 4), svg.Rect(0, 0, 6, 4, 1, 1), svg.Circle(3, 3, 2), svg.Ellipse(1, 1, 4, 2),
               svg.SimpleLine(1, 2, 3, 5), svg.Polyline((0, 0), (3, 4), (6, 0)), svg.Polygon((0, 0), (3, 4), (6, 0)),
-              svg.Path("M1,1L2,3z")]
+              svg.Path("M1,1L2,3z"),
+              # operands that carry a transform of their own are drawn where that transform puts them
+              svg.Rect(1, 2, 5, 4, transform="scale(2,3)"), svg.Polyline((0, 0), (3, 4), (6, 0), transform="translate(4,5)"),
+              svg.Path("M1,1L2,3z", transform="translate(4,5) scale(2)"), svg.Path("M1,1 Q2,3 4,1 z") * svg.Matrix(0, 1, -1, 0, 3, 0)]
     for sh in shapes:
         for name, op in (("path_add_shape", lambda p, s: p + s), ("path_iadd_shape", lambda p, s: p.__iadd__(s))):
             try:
@@ -223,7 +226,7 @@ def check_shape_case(case):
             except Exception as e:
                 dis.append({"clause": name + ":Raises", "detail": "%s %s on Path(%r) + %r" % (type(e).__name__, e, a, sh)})
                 continue
-            ref = svg.Path(sh)
+            ref = abs(svg.Path(sh))
             got = project(p)
             want_tail = project(ref)
             n = len(segs)
